@@ -291,7 +291,9 @@ def local_gp_fitting(
         )
         dist = dist.flatten()
         dist = dist[dist != 0]
-        if dist.size > 0:
+        if dist.size > 0 and np.max(dist) > np.min(dist):
+            # (two training points, or all points equally spaced, have a single
+            # distance: keep the previous prior instead of one with zero width)
             uu = 0.5 * np.log(np.max(dist))
             ll = 0.5 * np.log(np.min(dist))
 
